@@ -15,6 +15,7 @@ type panicTap struct{ next slog.Handler }
 var (
 	panicMu    sync.Mutex
 	panicTexts []string
+	sortAborts []string // "failed to sort …" error records (a value / time re-sort gave up)
 )
 
 func (h panicTap) Enabled(ctx context.Context, l slog.Level) bool { return h.next.Enabled(ctx, l) }
@@ -36,6 +37,18 @@ func (h panicTap) Handle(ctx context.Context, r slog.Record) error {
 		}
 		panicMu.Unlock()
 	}
+	if strings.HasPrefix(r.Message, "failed to sort") {
+		msg := r.Message
+		r.Attrs(func(a slog.Attr) bool {
+			msg += " " + a.Key + "=" + a.Value.String()
+			return true
+		})
+		panicMu.Lock()
+		if len(sortAborts) < 100000 {
+			sortAborts = append(sortAborts, msg)
+		}
+		panicMu.Unlock()
+	}
 	return h.next.Handle(ctx, r)
 }
 func (h panicTap) WithAttrs(a []slog.Attr) slog.Handler { return panicTap{h.next.WithAttrs(a)} }
@@ -51,6 +64,14 @@ func takePanicTexts() []string {
 	defer panicMu.Unlock()
 	out := panicTexts
 	panicTexts = nil
+	return out
+}
+
+func takeSortAborts() []string {
+	panicMu.Lock()
+	defer panicMu.Unlock()
+	out := sortAborts
+	sortAborts = nil
 	return out
 }
 
